@@ -32,6 +32,15 @@ def c17(res, tier, seed, replay):
                             "a dead cached connection counted as an attempt: the last attempt returns nil without sending")
     expect_design_violation(res, "Rpc", "Rpc.dup.cfg", "AtMostOnce",
                             "documented design observation: a retry after an rpc timeout can execute the request twice (slow servers are outside C17's fault list)")
+    # one connection carrying several calls at once (net/rpc + the MessagePack codec): a call is completed only by
+    # the server's answer to that call, and a refused call concerns nobody else
+    design_check(res, "RpcMux", "RpcMux.cfg" if tier == "quick" else "RpcMux.deep.cfg")
+    design_check(res, "RpcMux", "RpcMux.live.cfg")
+    expect_design_violation(res, "RpcMux", "RpcMux.fail.cfg", "Isolation",
+                            "the codec as it was pinned: the body of an error answer makes the reader fail, the connection is closed "
+                            "and every call in flight fails (fixed: 6883c97)")
+    expect_design_violation(res, "RpcMux", "RpcMux.leave.cfg", "NoPhantom",
+                            "the body of an error answer is left in the stream and taken for the next header (sequence number 0)")
     runs = []
     n = 1 if tier == "quick" else 5
     for s in range(n):
@@ -49,6 +58,10 @@ def c17(res, tier, seed, replay):
         # connections that grow old while requests are in flight: 6.5 s of small update requests back to back
         runs.append({"name": f"fan-soak-{s}", "timeout": 600,
                      "args": ["-servers", 2, "-maxshard", 3, "-seed", seed * 100 + 90 + s, "-hist", 1, "-batches", 10, "-soak-ms", 6500]})
+        # the first calls on a fresh connection: a slow search and a refused update at the same moment (RpcMux.tla)
+        runs.append({"name": f"fan-mux-{s}", "timeout": 600,
+                     "args": ["-mux", 4000, "-servers", 2, "-maxshard", 1000, "-seed", seed * 100 + 95 + s, "-hist", 6 if tier == "quick" else 20,
+                              "-batches", 2]})
         for servers in (2, 3):
             runs.append({"name": f"fan-kill-{servers}s-{s}", "timeout": 600,
                          "args": ["-kill", "-servers", servers, "-maxshard", 3, "-seed", seed * 100 + 50 + s * 10 + servers,
